@@ -206,8 +206,12 @@ def run_engine(exe, db, histories, templates, timeout=420):
         for run in h:
             lines.append("run " + hx(G.render_run(run, templates)))
     timed_out = False
+
+    def lim():       # a COPY loop that does not end must die (bad_alloc) instead of eating the machine
+        resource.setrlimit(resource.RLIMIT_AS, (3 << 30, 3 << 30))
     try:
-        r = subprocess.run([str(exe)], input="\n".join(lines) + "\n", text=True, capture_output=True, timeout=timeout)
+        r = subprocess.run([str(exe)], input="\n".join(lines) + "\n", text=True, capture_output=True, timeout=timeout,
+                           preexec_fn=lim)
         stdout, rc, errtail = r.stdout, r.returncode, r.stderr[-300:]
     except subprocess.TimeoutExpired as e:      # a calculation that does not finish: what was printed so far is judged
         so = e.stdout or ""
@@ -341,7 +345,8 @@ class Judge:
             return ("unjudged", other[0][:120])
         mstop = mod["stop"]
         if mstop and mstop[0] == "runaway":
-            return ("unjudged", "runaway copy in model (never generated)")
+            return ("bad", f"call {ci}: COPY {' '.join(mstop[1:])}: with the loop variable type read from copy_entities the copy "
+                           "loop does not end (targets 0,1,2,... until memory is exhausted)")
         if (stop is None) != (mstop is None):
             return ("bad", f"call {ci}: engine stop {stop} vs model stop {mstop}")
         if stop:
